@@ -19,7 +19,7 @@ RULE = (
 RULE += (" " + 'The menu includes multi-condition rules whose later condition fails and a good rule sharing its nested condition text with a failing rule; the stand-alone references are computed with emptied module caches of the library.')
 ASSUMPTIONS = ["per-rule fresh conversion (new backend class instance, new pipeline from the same dict, freshly loaded rule) is the reference",
                "errors are compared by type and message"]
-MENU = ["ok1", "ok2", "ok_lin", "off", "F_pipe", "F_item", "F_ph", "F_type", "F_cond", "F_neg", "ok_cased_sw", "F_cond2", "F_ph2"]
+MENU = ["ok1", "ok2", "ok_lin", "off", "F_pipe", "F_item", "F_ph", "F_type", "F_cond", "F_neg", "ok_cased_sw", "F_cond2", "F_ph2", "ok_opt"]
 BOUNDS = {"quick": dict(n=4), "thorough": dict(n=5)}
 
 
@@ -36,6 +36,8 @@ def rule_dict(kind, i):
         # same condition text as F_neg (an operator nested in another one), other detection content
         "ok_lin": {"sel": {"f1": f"lin{i}", "f2": "x"}, "flt": {"f3": f"n{i}"}, "condition": "sel and not flt"},
         # several conditions, a later one fails after an earlier one was converted
+        # selectors that match no detection: the optional part vanishes from the condition
+        "ok_opt": {"sel": {"f1": f"o{i}"}, "condition": ["sel and not 1 of filter_*", "sel or all of nope*"]},
         "F_cond2": {"sel": {"f1": f"c{i}"}, "condition": ["sel", "sel and missing"]},
         "F_ph2": {"sel": {"f1": f"p{i}"}, "ph": {"f2|expand": "%nope%"}, "condition": ["sel", "sel or ph", "sel"]},
         "F_pipe": {"sel": {"f1": "x"}, "condition": "sel"},
@@ -112,6 +114,8 @@ def single(kind, i, kname, pname):
         return ("ok", b.convert_rule(load(kind, i)))
     except (SigmaError, NotImplementedError) as e:
         return ("err",) + norm_err(type(e).__name__, str(e))
+    except Exception as e:  # a rule that cannot be converted must fail with a Sigma error; kept as the stand-alone outcome
+        return ("err", "non-sigma:" + type(e).__name__, str(e)[:120])
 
 
 _SINGLE = {}
@@ -150,7 +154,10 @@ def run_history(hist, kname, pname, collect):
         obs["result"] = ("err",) + norm_err(type(e).__name__, str(e))
     except Exception as e:
         obs["result"] = ("crash", type(e).__name__, str(e)[:200])
-    obs["errors"] = [(rules.index(r),) + norm_err(type(e).__name__, str(e)) for r, e in b.errors]
+    try:
+        obs["errors"] = [(rules.index(r),) + norm_err(type(e).__name__, str(e)) for r, e in b.errors]
+    except Exception as ex:  # the error list does not consist of (rule, error) pairs
+        obs["errors"] = [("malformed-error-records", type(ex).__name__, [type(x).__name__ for x in b.errors][:6])]
     obs["class_changed"] = V.class_attrs_intact(cls)
     # probe on the same backend afterwards
     try:
